@@ -1097,8 +1097,16 @@ pub fn content_of(actor: usize, index: usize, size: u32) -> String {
     };
     let mut s = base.clone();
     let mut k = 0;
+    // every third message carries multi-byte text (2-, 3- and 4-byte characters at shifting
+    // offsets), so that byte-oriented readers of the log and the caches meet characters across
+    // their buffer boundaries
+    let wide = index % 3 == 1;
     while s.len() < target {
-        s.push_str(&format!("word{} ", (k * 7 + index) % 97));
+        if wide && k % 2 == 0 {
+            s.push_str(&format!("wörd{}日本🙂 ", (k * 7 + index) % 97));
+        } else {
+            s.push_str(&format!("word{} ", (k * 7 + index) % 97));
+        }
         k += 1;
     }
     s
